@@ -554,7 +554,13 @@ DropPk(i) ==
 PfxEst == << [a |-> "listen"], [a |-> "connect"], [a |-> "egress"], [a |-> "deliver", fl |-> "S"],
              [a |-> "egress"], [a |-> "deliver", fl |-> "SA"], [a |-> "poll"], [a |-> "egress"],
              [a |-> "deliver", fl |-> "A"], [a |-> "accept"] >>
-Prefix == IF Start = "est" THEN PfxEst ELSE IF Start = "listen" THEN << [a |-> "listen"] >> ELSE <<>>
+\* with retx_threshold <= 2 the SYN is retransmitted before the SYN-ACK arrives; the stray
+\* copy is delivered (and ignored by the handshaking child) so that the wire can move on
+PfxEst2 == << [a |-> "listen"], [a |-> "connect"], [a |-> "egress"], [a |-> "deliver", fl |-> "S"],
+              [a |-> "egress"], [a |-> "deliver", fl |-> "SA"], [a |-> "poll"], [a |-> "deliver", fl |-> "S"],
+              [a |-> "egress"], [a |-> "deliver", fl |-> "A"], [a |-> "accept"] >>
+Prefix == IF Start = "est" THEN (IF RetxT <= 2 THEN PfxEst2 ELSE PfxEst)
+          ELSE IF Start = "listen" THEN << [a |-> "listen"] >> ELSE <<>>
 
 \* the forced prefix, conjoined to every action
 Pf == IF pfx <= Len(Prefix)
